@@ -293,6 +293,11 @@ pub fn cleanup_scratch() {
     let _ = std::fs::remove_dir_all(scratch_base_tmpfs());
 }
 
+/// an execution the wall-clock watchdog had to kill is re-run from a fresh sandbox this many times; only a block
+/// that repeats every time is believed (a machine stall does not repeat, a call that never returns does)
+pub const WATCHDOG_RETRIES: usize = 2;
+pub static WATCHDOG_RERUNS: std::sync::atomic::AtomicUsize = std::sync::atomic::AtomicUsize::new(0);
+
 impl Worker {
     pub fn new(id: usize, bins: &Bins) -> Worker {
         let w = Worker { id, base_ext4: format!("{}/w{}", scratch_base(), id), base_tmpfs: format!("{}/w{}", scratch_base_tmpfs(), id), bins: bins.clone() };
@@ -352,8 +357,17 @@ impl Worker {
     }
     /// build the sandbox and execute under the supervisor
     pub fn run(&self, s: &Scenario, spec: &RunSpec) -> Result<RunResult, String> {
-        self.prepare(s)?;
-        self.exec(s, spec)
+        let mut tries = 0;
+        loop {
+            self.prepare(s)?;
+            let r = self.exec(s, spec)?;
+            if r.watchdog && tries < WATCHDOG_RETRIES {
+                tries += 1;
+                WATCHDOG_RERUNS.fetch_add(1, std::sync::atomic::Ordering::Relaxed);
+                continue;
+            }
+            return Ok(r);
+        }
     }
     /// execute in the sandbox as it is now
     pub fn exec(&self, s: &Scenario, spec: &RunSpec) -> Result<RunResult, String> {
